@@ -1,5 +1,5 @@
-From PV.Model Require Import Machine Mapping Views Dirs.
-From PV.Spec Require Import MappingSpec ViewSpec DirSpec.
+From PV.Model Require Import Machine Mapping Views Dirs DirsFields.
+From PV.Spec Require Import MappingSpec ViewSpec DirSpec DirShape.
 Require Import ExtrOcamlBasic.
 Extraction Language OCaml.
 Extraction "../ocaml/gen/dirs_model.ml"
@@ -7,6 +7,7 @@ Extraction "../ocaml/gen/dirs_model.ml"
   exception_try_from exception_functions check_sorted index_of index_of_orig lookup_function_entry
   function_bytes unwind_info uw_version uw_flags uw_size_of_prolog uw_count uw_frame_register uw_frame_offset uw_codes
   security_try_from security_try_from_orig certificate_type certificate_data
+  sec_length sec_revision certificate_bytes entry_fields security_fields_shape entry_fields_shape unwind_fields_shape
   debug_try_from debug_dirs dir_data dir_entry pdb_file_name pgo_iter
   tls_try_from tls_start tls_end tls_index tls_cb tls_raw_data tls_slot tls_callbacks
   load_config_try_from lc_cookie_ptr lc_table_ptr lc_count lc_security_cookie lc_se_handler_table
